@@ -10,5 +10,7 @@ CONFIG = dict(
     rule=("Case = scenario + order + cache config. Oracle = graphref ancestry bitsets. Non-trivial = the run contains a block that "
           "delivers >= 2 events while some ancestor of its Atropos had been delivered by an earlier block; distinct by scenario hash."),
     assumptions=["forking validators hold < 1/3 of the weight"],
-    units=[dict(test="TestC02Delivery", quick=1800, thorough=96000, shards=16)],
+    units=[dict(test="TestC02Delivery", quick=1800, thorough=96000, shards=16),
+           # the rare large shapes: one block confirming 700-1200 events, 65-70 validators, 66-70 same-seq events
+           dict(test="TestC02Shapes", quick=12, thorough=640, shards=16)],
 )
